@@ -123,3 +123,44 @@ def build(T):
     t32('StrexdT1', '11101 000 1100 Rn:4 Rt:4 Rt2:4 0111 Rd:4', family='C02',
         unpred=lambda f, c: lor(badreg(f['Rd']), badreg(f['Rt']), badreg(f['Rt2']), f['Rn'] == 15, f['Rd'] == f['Rn'], f['Rd'] == f['Rt'],
                                 f['Rd'] == f['Rt2']))
+    # ---- coprocessor instructions (generic coprocessors; coproc 101x is the Floating-point / Advanced SIMD space): decode-only
+    not_fp = lambda f: bits(f['coproc'], 3, 1) != 0b101
+    COP = [('StcStc2', '110 P U D W 0 Rn:4 CRd:4 coproc:4 imm8:8', lambda f: lnot(land(f['P'] == 0, f['U'] == 0, f['W'] == 0)), 'stc'),
+           ('LdcLdc2Immediate', '110 P U D W 1 Rn:4 CRd:4 coproc:4 imm8:8',
+            lambda f: land(lnot(land(f['P'] == 0, f['U'] == 0, f['W'] == 0)), f['Rn'] != 15), 'ldc'),
+           ('LdcLdc2Literal', '110 P U D W 1 1111 CRd:4 coproc:4 imm8:8', lambda f: lnot(land(f['P'] == 0, f['U'] == 0, f['W'] == 0)), 'ldcl'),
+           ('McrrMcrr2', '1100 0100 Rt2:4 Rt:4 coproc:4 opc1:4 CRm:4', lambda f: True, 'mcrr'),
+           ('MrrcMrrc2', '1100 0101 Rt2:4 Rt:4 coproc:4 opc1:4 CRm:4', lambda f: True, 'mrrc'),
+           ('CdpCdp2', '1110 opc1:4 CRn:4 CRd:4 coproc:4 opc2:3 0 CRm:4', lambda f: True, 'cdp'),
+           ('McrMcr2', '1110 opc1:3 0 CRn:4 Rt:4 coproc:4 opc2:3 1 CRm:4', lambda f: True, 'mcr'),
+           ('MrcMrc2', '1110 opc1:3 1 CRn:4 Rt:4 coproc:4 opc2:3 1 CRm:4', lambda f: True, 'mrc')]
+
+    def cop_unpred(kind, thumb):
+        def up(f, c):
+            if kind in ('mcrr', 'mrrc'):
+                bad = lor(badreg(f['Rt']), badreg(f['Rt2'])) if thumb else lor(f['Rt'] == 15, f['Rt2'] == 15)
+                return lor(bad, f['Rt'] == f['Rt2']) if kind == 'mrrc' else bad
+            if kind == 'mcr':
+                return lor(f['Rt'] == 15, land(f['Rt'] == 13, thumb))
+            if kind == 'mrc':
+                return land(f['Rt'] == 13, thumb)
+            if kind == 'stc':
+                return lor(land(f['Rn'] == 15, lor(f['W'] == 1, thumb)), False)
+            if kind == 'ldc':
+                return False
+            if kind == 'ldcl':
+                return f['W'] == 1
+            return False
+        return up
+    for base, pat, extra, kind in COP:
+        w = (lambda extra: lambda f: land(not_fp(f), extra(f)))(extra)
+        T.add(base + 'A1', 'arm', '%s %s' % (C, pat), None, family='C12', when=(lambda w: lambda f: land(nu(f), w(f)))(w), unpred=cop_unpred(kind, False))
+        T.add(base + 'A2', 'arm', '1111 %s' % pat, None, family='C12', when=w, unpred=cop_unpred(kind, False))
+        T.add(base + 'T1', 't32', '1110 %s' % pat, None, family='C12', when=w, unpred=cop_unpred(kind, True))
+        T.add(base + 'T2', 't32', '1111 %s' % pat, None, family='C12', when=w, unpred=cop_unpred(kind, True))
+    # ---- Thumb preload hints, ENTERX/LEAVEX: decode-only
+    t32('PldImmediateT1', '11111 000 10 W 1 Rn:4 1111 imm12:12', when=lambda f: f['Rn'] != 15, family='C02')
+    t32('PldImmediateT2', '11111 000 00 W 1 Rn:4 1111 1100 imm8:8', when=lambda f: f['Rn'] != 15, family='C02')
+    t32('PldLiteralT1', '11111 000 U 0 (0) 1 1111 1111 imm12:12', family='C02')
+    t32('PldRegisterT1', '11111 000 00 W 1 Rn:4 1111 000000 imm2:2 Rm:4', when=lambda f: f['Rn'] != 15, family='C02', unpred=lambda f, c: badreg(f['Rm']))
+    t32('EnterxLeavexT1', '11110 0 111 01 1 (1111) 10 (0) 0 (1111) 000 J (1111)', family='C12')
